@@ -1080,6 +1080,16 @@ func (m *clusterImpl) Do(line string) string {
 			m.c.Stats.Notes = append(m.c.Stats.Notes, "sync: "+why)
 		}
 		return "lag"
+	case "wait-ms": // wait-ms <n>: real time passes (a time-out of the code under test runs out)
+		if len(f) != 2 {
+			return "bad-op"
+		}
+		n, err := strconv.Atoi(f[1])
+		if err != nil || n < 0 || n > 7000 {
+			return "bad-op"
+		}
+		time.Sleep(time.Duration(n) * time.Millisecond)
+		return "ok"
 	case "pause": // let in-flight stream frames land (e.g. a forwarded transaction echoed back to its author)
 		time.Sleep(40 * time.Millisecond)
 		return "ok"
@@ -1227,7 +1237,7 @@ func (m *clusterImpl) Do(line string) string {
 			return "err"
 		}
 		return "ok"
-	case "handoff": // handoff <p> <k>: ask node p to hand its lease to node k
+	case "handoff", "handoff-stalled": // handoff <p> <k>: ask node p to hand its lease to node k (-stalled: k's stream handler on p is blocked, the script says so to the model)
 		if len(f) != 3 {
 			return "bad-op"
 		}
